@@ -147,36 +147,29 @@ theorem digitsOf_length (r : Bytes) : (digitsOf r).1.length + (digitsOf r).2.len
     · simp only [List.length_cons]; omega
     · simp
 
+theorem scanExpDigits_le (env : Env) (neg : Bool) (int : Bytes) (frac : Option Bytes) (en : Bool) (rest : Bytes) (pos : Nat) :
+    ShrLe rest pos (scanExpDigits env neg int frac en rest pos) := by
+  unfold scanExpDigits
+  split
+  · exact atEof_shr.le
+  · rename_i d r2
+    have h2 := digitsOf_length r2
+    dsimp only
+    repeat' split
+    all_goals first
+      | exact err_shr.le
+      | exact io_shr.le
+      | exact ok_shrLe_of (by simp only [List.length_cons]; omega) (by simp only [List.length_cons]; omega)
+
 theorem scanExp_le (env : Env) (neg : Bool) (int : Bytes) (frac : Option Bytes) (rest : Bytes) (pos : Nat) :
     ShrLe rest pos (scanExp env neg int frac rest pos) := by
   unfold scanExp
   split
   · exact atEof_shr.le
-  · rename_i c r
-    dsimp only
-    have hs : ∀ (x : Bool × Bytes × Nat), x = (if c == 0x2b then ((false, r, pos + 1) : Bool × Bytes × Nat) else if c == 0x2d then (true, r, pos + 1)
-        else (false, c :: r, pos)) → x.2.1.length ≤ (c :: r).length ∧ x.2.2 + x.2.1.length = pos + (c :: r).length := by
-      intro x hx
-      split at hx
-      · subst hx; exact ⟨by simp, by simp only [List.length_cons]; omega⟩
-      · split at hx
-        · subst hx; exact ⟨by simp, by simp only [List.length_cons]; omega⟩
-        · subst hx; exact ⟨Nat.le_refl _, rfl⟩
-    generalize hsg : (if c == 0x2b then ((false, r, pos + 1) : Bool × Bytes × Nat) else if c == 0x2d then (true, r, pos + 1)
-        else (false, c :: r, pos)) = sgn
-    have hs' := hs sgn hsg.symm
-    obtain ⟨sn, sr, sp⟩ := sgn
-    dsimp only at hs' ⊢
-    split
-    · exact atEof_shr.le
-    · rename_i d r2
-      have h2 := digitsOf_length r2
-      simp only [List.length_cons] at hs'
-      repeat' split
-      all_goals first
-        | exact err_shr.le
-        | exact io_shr.le
-        | exact ok_shrLe_of (by simp only [List.length_cons]; omega) (by simp only [List.length_cons]; omega)
+  · repeat' split
+    all_goals first
+      | exact (scanExpDigits_le _ _ _ _ _ _ _).mono (by simp) (by simp only [List.length_cons]; omega)
+      | exact scanExpDigits_le _ _ _ _ _ _ _
 
 theorem scanAfterInt_le (env : Env) (neg : Bool) (int : Bytes) (rest : Bytes) (pos : Nat) :
     ShrLe rest pos (scanAfterInt env neg int rest pos) := by
@@ -768,6 +761,42 @@ theorem size_shape (sh : VariantShape) (s : Schema) (h : s ∈ shapeSchemas sh) 
     obtain ⟨f, hf, rfl⟩ := h
     have := size_mem_fields fs f hf
     simp only [VariantShape.size]; omega
+
+/-! ### the rows of `deTyped` as equations between functions -/
+
+section
+variable (env : Env) (f t : Nat)
+theorem deTyped_bool : deTyped env (f + 1) t .bool = deBool env := by funext r p; rfl
+theorem deTyped_int (w : IntTy) : deTyped env (f + 1) t (.int w) = deInt env w := by funext r p; rfl
+theorem deTyped_f64 : deTyped env (f + 1) t .f64 = deNumber env .f64 := by funext r p; rfl
+theorem deTyped_f32 : deTyped env (f + 1) t .f32 = deNumber env .f32 := by funext r p; rfl
+theorem deTyped_char : deTyped env (f + 1) t .char = deStr env FromValue.visitCharStr := by funext r p; rfl
+theorem deTyped_string : deTyped env (f + 1) t .string = deStr env (fun x => .ok (.str x)) := by funext r p; rfl
+theorem deTyped_bytes : deTyped env (f + 1) t .bytes = deBytes env t := by funext r p; rfl
+theorem deTyped_unit : deTyped env (f + 1) t .unit = deUnit env := by funext r p; rfl
+theorem deTyped_unitStruct : deTyped env (f + 1) t .unitStruct = deUnit env := by funext r p; rfl
+theorem deTyped_newtype (s : Schema) : deTyped env (f + 1) t (.newtype s) = deTyped env f t s := by funext r p; rfl
+theorem deTyped_option (s : Schema) : deTyped env (f + 1) t (.option s) = fun rest pos =>
+    (match skipWs rest pos with
+     | ([], p) => if env.flt then .io else (deTyped env f t s [] p).map .some
+     | (b :: r, p) =>
+       if b == 0x6e then (parseIdent env Gen.identNull r (p + 1)).bind fun _ r' p' => .ok .none r' p'
+       else (deTyped env f t s (b :: r) p).map .some) := by funext r p; rfl
+theorem deTyped_seq (s : Schema) : deTyped env (f + 1) t (.seq s) =
+    deSeq env t (fun r p => (seqLoop env (deTyped env f (t + 1) s) (r.length + 1) true [] r p).map .seq) := by funext r p; rfl
+theorem deTyped_tuple (ss : List Schema) : deTyped env (f + 1) t (.tuple ss) =
+    deSeq env t (fun r p => (tupleLoop env (deTyped env f (t + 1)) ss true [] r p).map .seq) := by funext r p; rfl
+theorem deTyped_map (k : KeyKind) (s : Schema) : deTyped env (f + 1) t (.map k s) =
+    deMap env t (fun r p => (mapLoop env k (deTyped env f (t + 1) s) (r.length + 1) true [] r p).map .map) := by funext r p; rfl
+theorem deTyped_struct (fs : List (Bytes × Schema)) (deny : Bool) : deTyped env (f + 1) t (.struct_ fs deny) =
+    deStruct env t (deTyped env f) fs deny := by funext r p; rfl
+theorem deTyped_enum (vs : List (Bytes × VariantShape)) : deTyped env (f + 1) t (.enum_ vs) =
+    deEnum env t (deTyped env f) vs := by funext r p; rfl
+theorem deTyped_ignored : deTyped env (f + 1) t .ignored = fun rest pos => (ignoreValue env rest pos).map fun _ => .ignored := by
+  funext r p; rfl
+theorem deTyped_any : deTyped env (f + 1) t .any = fun rest pos =>
+    (machine (valEnv env) env.flt t { mode := .val .top, stack := padStack t } rest pos).map .any := by funext r p; rfl
+end
 
 /-- **fuel**: with fuel at least the size of the schema, `deTyped` never runs out of fuel, and every
     successful parse consumes at least one byte -/
